@@ -16,6 +16,7 @@ import (
 	"fmt"
 	"io"
 	"os"
+	"runtime/debug"
 	"strings"
 	"sync"
 	"time"
@@ -223,7 +224,7 @@ func genInputs(rng *common.Rng, thorough bool) [][]byte {
 	text := "The quick brown fox jumps over the lazy dog. Pack my box with five dozen liquor jugs. "
 	in = append(in, []byte(text[:54]), []byte(text), []byte(strings.Repeat(text, 4)))
 	in = append(in, []byte(`{"id":12345,"name":"swamp","tags":["a","b","a","b"],"name2":"swamp"}`))
-	nr, maxLen := 22, 400
+	nr, maxLen := 14, 400
 	if thorough {
 		nr, maxLen = 70, 512
 	}
@@ -347,15 +348,15 @@ func main() {
 		skipped bool
 	}
 	type job struct {
-		t              int
+		n, t           int
 		x              []byte
 		le, we, ld, wd result
 		ds             []dres
 	}
 	var jobs []*job
 	for t := 1; t <= 4; t++ {
-		for _, x := range inputs {
-			jobs = append(jobs, &job{t: t, x: x})
+		for n, x := range inputs {
+			jobs = append(jobs, &job{n: n, t: t, x: x})
 		}
 	}
 	// damage lists are drawn sequentially (deterministic), the codec calls run in parallel
@@ -365,20 +366,23 @@ func main() {
 		if !j.we.err && j.we.panic == "" {
 			// the codecs cost 0.2 ms (zstd) to 10 ms (lz4: 4 MiB buffers) per call: cap the
 			// number of damaged forms per input; the tiny inputs keep (nearly) all of theirs
-			cap := map[int]int{1: 100, 2: 60, 3: 150, 4: 100}[j.t]
-			if len(j.x) <= 2 {
+			cap := map[int]int{1: 60, 2: 12, 3: 100, 4: 60}[j.t]
+			if len(j.x) <= 2 && j.t == 2 {
+				cap *= 2
+			} else if len(j.x) <= 2 {
 				cap *= 4
 			}
 			if thorough {
 				cap *= 5
+			} else if j.t == 2 && j.n >= 5 {
+				cap = 0 // lz4 is the slowest codec by far: damage only the first inputs in the quick tier
 			}
 			for _, d := range subsample(rng, genDamages(rng, j.we.data, thorough), cap) {
 				j.ds = append(j.ds, dres{d: d})
 			}
 		}
 	}
-	tPar := time.Now()
-	common.Parallel(len(jobs), 16, func(i int) {
+	work := func(i int) {
 		j := jobs[i]
 		t0 := time.Now()
 		defer func() {
@@ -401,13 +405,37 @@ func main() {
 			j.ds[k].lib = libDec(j.t, y2)
 			j.ds[k].wr = wrapDec(j.t, y2)
 		}
-	})
+	}
+	tPar := time.Now()
+	// lz4 allocates several 4 MiB buffers per call; many concurrent lz4 calls thrash the
+	// collector, so the lz4 jobs get two workers of their own
+	debug.SetGCPercent(400)
+	var lz4Jobs, otherJobs []int
+	for i, j := range jobs {
+		if j.t == 2 {
+			lz4Jobs = append(lz4Jobs, i)
+		} else {
+			otherJobs = append(otherJobs, i)
+		}
+	}
+	var wg sync.WaitGroup
+	wg.Add(2)
+	go func() { defer wg.Done(); common.Parallel(len(lz4Jobs), 3, func(k int) { work(lz4Jobs[k]) }) }()
+	go func() { defer wg.Done(); common.Parallel(len(otherJobs), 8, func(k int) { work(otherJobs[k]) }) }()
+	wg.Wait()
 	if os.Getenv("C24_TIMING") != "" {
 		fmt.Fprintln(os.Stderr, "parallel phase", time.Since(tPar))
 	}
 	for _, j := range jobs {
 		name := algName[j.t]
-		idx := run.Add(common.App("CRound", common.Z(int64(j.t)), common.ByteList(j.x), j.le.coq(), j.we.coq(), j.ld.coq(), j.wd.coq()),
+		weT, wdT := "None", "WSame"
+		if !j.we.same(j.le) {
+			weT = common.Some(j.we.coq())
+		}
+		if !j.wd.same(j.ld) {
+			wdT = common.App("WIs", j.wd.robs(j.x))
+		}
+		idx := run.Add(common.App("CRound", common.Z(int64(j.t)), common.ByteList(j.x), j.le.coq(), weT, j.ld.robs(j.x), wdT),
 			map[string]interface{}{"kind": "roundtrip", "alg": name, "input_hex": fmt.Sprintf("%x", j.x),
 				"compress": j.we.human(), "decompress": j.wd.human()}, len(j.x) > 0)
 		run.Hist("roundtrip_" + name)
@@ -463,12 +491,15 @@ func main() {
 	}
 
 	// arbitrary garbage (never a compressed form): errors must propagate, snappy model must agree
-	ng := 300
+	ng := 200
 	if thorough {
 		ng = 5000
 	}
 	for i := 0; i < ng; i++ {
 		t := 1 + rng.Intn(4)
+		if t == 2 && !thorough && rng.Intn(4) != 0 {
+			t = 3 // lz4 calls are two orders of magnitude slower than the others
+		}
 		var y []byte
 		switch rng.Intn(3) {
 		case 0:
@@ -520,6 +551,7 @@ func main() {
 			}
 		}
 	}
+	run.Shard = (run.Meta.Evaluations + 7) / 8 // each coqc start costs seconds: few shards
 	run.Meta.Traces = run.Meta.Evaluations
 	run.Finish("check_all")
 }
